@@ -143,14 +143,51 @@ def mpx_R(self, x, n):
     return rnd_at(op_real(x), None, mpx_n(self, n), self.rm)
 
 
-def mpf_post(self, x, n, exact, r):
-    """post of MPFloatContext._round_at / round (n = None) / round_at"""
+# ---------------------------------------------------------------------------
+# membership predicates (value sets written from the published parameters)
+
+def fits_p(c, pmax):
+    """c (> 0) is m * 2^t with bl(m) <= pmax"""
+    over = bl(c) - pmax
+    return (fmod(c, pow2(over)) == 0) if over > 0 else True
+
+
+def mpf_member(pmax, enable_nan, enable_inf, v):
+    """Float v is a member of MPFloatFormat(pmax, enable_nan, enable_inf)"""
+    return ite(v._isnan, enable_nan,
+           ite(v._isinf, enable_inf,
+               v._real._c == 0 or fits_p(v._real._c, pmax)))
+
+
+@invariant('fpy2.number.context.mp_float:MPFloatContext')
+def inv_MPFloatContext(k):
+    return k.pmax >= 1
+
+
+def mps_member_real(pmax, emin, xr):
+    """finite xr is in MPSFloatFormat(pmax, emin): zero, or at most pmax digits, none at or below nmin = emin - pmax"""
+    return xr._c == 0 or (fits_p(xr._c, pmax) and on_grid(xr, emin - pmax))
+
+
+def mps_member(pmax, emin, enable_nan, enable_inf, v):
+    return ite(v._isnan, enable_nan, ite(v._isinf, enable_inf, mps_member_real(pmax, emin, v._real)))
+
+
+@invariant('fpy2.number.context.mps_float:MPSFloatContext')
+def inv_MPSFloatContext(k):
+    return k.pmax >= 1
+
+
+def float_family_post(self, x, n, r, R, nmin):
+    """
+    shared post of the float families without a maximum value (MPFloat: nmin None, MPSFloat):
+    R = rnd_at(...) at the family's (p, n*)
+    """
     nan = op_nan(x)
     inf = op_inf(x)
     xr = op_real(x)
     fin = not nan and not inf
     nz = fin and xr._c != 0
-    R = mpf_R(self, x, n)
     return {
         'ctx': same_obj(r._ctx, self),
         # K5 special values
@@ -173,35 +210,32 @@ def mpf_post(self, x, n, exact, r):
         # K1 member of the format
         'member_p': implies(nz, bl(r._real._c) <= self.pmax),
         'member_n': implies(nz, r._real._exp > n) if n is not None else True,
+        'member_nmin': implies(nz, r._real._exp > nmin) if nmin is not None else True,
     }
 
 
-def mpf_raises(self, x, n, exact):
+def float_family_raises(self, x, exact, R):
     nan = op_nan(x)
     inf = op_inf(x)
     return {
         'ValueError': (nan and not self.enable_nan and self.nan_value is None)
                       or (inf and not self.enable_inf and self.inf_value is None)
-                      or (op_nonzero(x) and exact and mpf_R(self, x, n)[2]),
+                      or (op_nonzero(x) and exact and R[2]),
     }
 
 
-# ---------------------------------------------------------------------------
-# membership predicates (value sets written from the published parameters)
-
-def fits_p(c, pmax):
-    """c (> 0) is m * 2^t with bl(m) <= pmax"""
-    over = bl(c) - pmax
-    return (fmod(c, pow2(over)) == 0) if over > 0 else True
+def mps_post(self, x, n, exact, r):
+    return float_family_post(self, x, n, r, mps_R(self, x, n), mps_nmin(self))
 
 
-def mpf_member(pmax, enable_nan, enable_inf, v):
-    """Float v is a member of MPFloatFormat(pmax, enable_nan, enable_inf)"""
-    return ite(v._isnan, enable_nan,
-           ite(v._isinf, enable_inf,
-               v._real._c == 0 or fits_p(v._real._c, pmax)))
+def mps_raises(self, x, n, exact):
+    return float_family_raises(self, x, exact, mps_R(self, x, n))
 
 
-@invariant('fpy2.number.context.mp_float:MPFloatContext')
-def inv_MPFloatContext(k):
-    return k.pmax >= 1
+def mpf_post(self, x, n, exact, r):
+    """post of MPFloatContext._round_at / round (n = None) / round_at"""
+    return float_family_post(self, x, n, r, mpf_R(self, x, n), None)
+
+
+def mpf_raises(self, x, n, exact):
+    return float_family_raises(self, x, exact, mpf_R(self, x, n))
